@@ -76,6 +76,12 @@ structure Cfg where
   regroup : Bool := true
   /-- rule (f): closure literals without outer identifiers are constants -/
   foldClosures : Bool := true
+  /-- `false` for the names of methods declared impure on some type: the receiver type of a method call
+  is not known when the code is generated, so the call counts as pure only if NO method of that name is
+  declared impure (repair 8aa887a, `MethodPurityHandler`). `fun _ => true` = no impure method is
+  registered (true of `value.New()`: regenerated `ValueTables`), which is also how the code before the
+  repair treated every method call. -/
+  methNamePure : String → Bool := fun _ => true
 
 /-- the scope while optimizing, nearest binding first: `some k` = constant identifier with constant
 form `k` (parser: `AddConst`), `none` = run-time variable (`Add`, `AddArgs`, `AddThis`) -/
@@ -91,7 +97,8 @@ variable (S : Statics) (M : Methods) (T : Tables) (cfg : Cfg)
 /-! ## purity of a closure body (`GenerateFunc`'s second result) -/
 
 mutual
-/-- only a call of an impure static function makes generated code impure -/
+/-- only a call of an impure static function or of a method whose NAME is declared impure makes
+generated code impure -/
 def pureA : AST → Bool
   | .const _ => true
   | .ident _ => true
@@ -110,7 +117,7 @@ def pureA : AST → Bool
       (match f with
        | .ident name => (match S name with | some (_, p) => p | none => true)
        | _ => true) && pureA f && pureList args
-  | .method recv _ args => pureA recv && pureList args
+  | .method recv name args => cfg.methNamePure name && pureA recv && pureList args
 def pureList : List AST → Bool
   | [] => true
   | a :: as => pureA a && pureList as
@@ -131,7 +138,7 @@ def isConst : AST → Bool
   | .listLit items => allConst items
   | .mapLit kvs => allConstKVs kvs
   | .clos names body outer r _ =>
-      cfg.foldClosures && outer.isEmpty && !r && pureA S body
+      cfg.foldClosures && outer.isEmpty && !r && pureA S cfg body
         && (gen S {} body (names.map some) []).isSome
   | _ => false
 def allConst : List AST → Bool
